@@ -13,7 +13,16 @@ var _ = ast.VIsInfixTok // used in contracts
 // verif only; see /verif/DESIGN.md section 4, C05/C07/C08).
 
 // pwf: the parser's representation invariant (its lexer is well-formed).
-func (p Parser) pwf() bool { return p.Lexer.VWf() }
+func (p Parser) pwf() bool { return p.Lexer.VWf() && p.tokOrd() }
+
+// tokOrd: the two buffered tokens lie in the consumed part of the text, in
+// source order (C08: spans are built from their positions).
+func (p Parser) tokOrd() bool {
+	return p.CurrentToken.Span.Start.Index <= p.CurrentToken.Span.End.Index &&
+		p.PreviousToken.Span.Start.Index <= p.PreviousToken.Span.End.Index &&
+		p.PreviousToken.Span.End.Index <= p.CurrentToken.Span.End.Index &&
+		int(p.CurrentToken.Span.End.Index) <= p.Lexer.VIndex()
+}
 
 // M is the termination measure of the parser: the characters the lexer has
 // not consumed yet, plus one while the current token is not EOF. Every
@@ -28,13 +37,17 @@ func (p Parser) M() int {
 
 /*@ template for (self *Parser) *
     except next, nonCriticalErr, Parse, expectRecoverable, expectMultipleInternal, expectMultiple, expectedOneOfErr
-    serves C05
+    serves C05, C08
     requires self.pwf()
     ensures self.pwf()
     ensures @monotone self.M() <= old(self.M())
     ensures @progress lasterr == nil && old(self.CurrentToken.Kind) != lexer.EOF ==> self.M() < old(self.M())
     ensures @nonnil [ast.Expression|ast.HmsType|ast.Statement] lasterr == nil ==> result != nil
+    ensures @tok-mono-prev self.PreviousToken.Span.End.Index >= old(self.PreviousToken.Span.End.Index)
+    ensures @tok-mono-cur self.CurrentToken.Span.Start.Index >= old(self.CurrentToken.Span.Start.Index) && self.CurrentToken.Span.End.Index >= old(self.CurrentToken.Span.End.Index)
+    ensures @tok-consumed lasterr == nil && old(self.CurrentToken.Kind) != lexer.EOF ==> self.PreviousToken.Span.End.Index >= old(self.CurrentToken.Span.End.Index)
     loopinvariant self.pwf() && self.M() <= entry(self.M())
+    loopinvariant self.PreviousToken.Span.End.Index >= entry(self.PreviousToken.Span.End.Index) && self.CurrentToken.Span.Start.Index >= entry(self.CurrentToken.Span.Start.Index) && self.CurrentToken.Span.End.Index >= entry(self.CurrentToken.Span.End.Index)
     loopdecreases self.M()
 @*/
 
@@ -46,26 +59,31 @@ func (p Parser) M() int {
     ensures @progress result == nil && old(self.CurrentToken.Kind) != lexer.EOF ==> self.M() < old(self.M())
     ensures @shift result == nil ==> self.PreviousToken == old(self.CurrentToken)
     ensures @unchanged result != nil ==> self.CurrentToken == old(self.CurrentToken) && self.PreviousToken == old(self.PreviousToken)
+    ensures @tok-mono-prev self.PreviousToken.Span.End.Index >= old(self.PreviousToken.Span.End.Index)
+    ensures @tok-mono-cur self.CurrentToken.Span.Start.Index >= old(self.CurrentToken.Span.Start.Index) && self.CurrentToken.Span.End.Index >= old(self.CurrentToken.Span.End.Index)
 @*/
 
 /*@ func (self *Parser) nonCriticalErr
-    serves C05
+    serves C05, C08
     requires self.pwf()
     ensures self.pwf() && self.M() == old(self.M())
     ensures self.CurrentToken == old(self.CurrentToken) && self.PreviousToken == old(self.PreviousToken)
 @*/
 
 /*@ func (self *Parser) expectRecoverable
-    serves C05
+    serves C05, C08
     requires self.pwf()
     ensures self.pwf()
     ensures @monotone self.M() <= old(self.M())
     ensures @progress result == nil && old(self.CurrentToken.Kind) == expected && expected != lexer.EOF ==> self.M() < old(self.M())
     ensures @recovered old(self.CurrentToken.Kind) != expected ==> result == nil && self.M() == old(self.M()) && self.CurrentToken == old(self.CurrentToken) && self.PreviousToken == old(self.PreviousToken)
+    ensures @tok-mono-prev self.PreviousToken.Span.End.Index >= old(self.PreviousToken.Span.End.Index)
+    ensures @tok-mono-cur self.CurrentToken.Span.Start.Index >= old(self.CurrentToken.Span.Start.Index) && self.CurrentToken.Span.End.Index >= old(self.CurrentToken.Span.End.Index)
+    ensures @tok-consumed result == nil && old(self.CurrentToken.Kind) == expected && expected != lexer.EOF ==> self.PreviousToken.Span.End.Index >= old(self.CurrentToken.Span.End.Index)
 @*/
 
 /*@ func (self *Parser) expectMultipleInternal
-    serves C05
+    serves C05, C08
     requires self.pwf()
     ensures self.pwf()
     ensures @monotone self.M() <= old(self.M())
@@ -74,15 +92,21 @@ func (p Parser) M() int {
     ensures @peek !advance ==> self.M() == old(self.M()) && self.CurrentToken == old(self.CurrentToken) && self.PreviousToken == old(self.PreviousToken)
     loop 1 invariant self.pwf() && self.M() == old(self.M()) && self.CurrentToken == old(self.CurrentToken) && self.PreviousToken == old(self.PreviousToken)
     loop 1 invariant forall j in 0..rangeindex() :: expected[j] != self.CurrentToken.Kind
+    ensures @tok-mono-prev self.PreviousToken.Span.End.Index >= old(self.PreviousToken.Span.End.Index)
+    ensures @tok-mono-cur self.CurrentToken.Span.Start.Index >= old(self.CurrentToken.Span.Start.Index) && self.CurrentToken.Span.End.Index >= old(self.CurrentToken.Span.End.Index)
+    ensures @tok-consumed result == nil && advance && old(self.CurrentToken.Kind) != lexer.EOF ==> self.PreviousToken.Span.End.Index >= old(self.CurrentToken.Span.End.Index)
 @*/
 
 /*@ func (self *Parser) expectMultiple
-    serves C05
+    serves C05, C08
     requires self.pwf()
     ensures self.pwf()
     ensures @monotone self.M() <= old(self.M())
     ensures @progress result == nil && old(self.CurrentToken.Kind) != lexer.EOF ==> self.M() < old(self.M())
     ensures @member result == nil ==> exists i in 0..len(expected) :: expected[i] == old(self.CurrentToken.Kind)
+    ensures @tok-mono-prev self.PreviousToken.Span.End.Index >= old(self.PreviousToken.Span.End.Index)
+    ensures @tok-mono-cur self.CurrentToken.Span.Start.Index >= old(self.CurrentToken.Span.Start.Index) && self.CurrentToken.Span.End.Index >= old(self.CurrentToken.Span.End.Index)
+    ensures @tok-consumed result == nil && old(self.CurrentToken.Kind) != lexer.EOF ==> self.PreviousToken.Span.End.Index >= old(self.CurrentToken.Span.End.Index)
 @*/
 
 /*@ func (self Parser) expectedOneOfErr
@@ -114,7 +138,7 @@ func (p Parser) M() int {
 @*/
 
 /*@ func (self *Parser) Parse
-    serves C05
+    serves C05, C08
     requires self.pwf()
     ensures self.pwf()
 @*/
@@ -126,53 +150,83 @@ func (p Parser) M() int {
 @*/
 
 /*@ func (self *Parser) prefixExpression
-    serves C07
+    serves C07, C08
     requires ast.VIsPrefixTok(self.CurrentToken.Kind)
     ensures @operator lasterr == nil ==> result.Operator == ast.TokenAsPrefixOperator(old(self.CurrentToken.Kind))
     ensures @operand-tighter lasterr == nil && !restrictBaseToLiterals ==> ast.VRootLeft(result.Base) > lexer.VPrefixPower
     ensures @operand-stop lasterr == nil && !restrictBaseToLiterals ==> lexer.VLeft(self.CurrentToken.Kind) <= lexer.VPrefixPower
+    ensures @span-start lasterr == nil ==> result.Range.Start == old(self.CurrentToken.Span.Start)
+    ensures @span-end lasterr == nil ==> result.Range.End == self.PreviousToken.Span.End && result.Range.Filename == self.Filename
+    ensures @span-ordered lasterr == nil && old(self.CurrentToken.Kind) != lexer.EOF ==> result.Range.Start.Index <= result.Range.End.Index
 @*/
 
 /*@ func (self *Parser) infixExpression
-    serves C07
+    serves C07, C08
     requires ast.VIsInfixTok(self.CurrentToken.Kind) && lhs != nil
     ensures @lhs lasterr == nil ==> result.Lhs == lhs
     ensures @operator lasterr == nil ==> result.Operator == ast.VInfixOf(old(self.CurrentToken.Kind))
     ensures @rhs-tighter lasterr == nil ==> ast.VRootLeft(result.Rhs) > lexer.VRight(old(self.CurrentToken.Kind))
     ensures @rhs-stop lasterr == nil ==> lexer.VLeft(self.CurrentToken.Kind) <= lexer.VRight(old(self.CurrentToken.Kind))
+    requires start.Index <= self.CurrentToken.Span.Start.Index
+    ensures @span-start lasterr == nil ==> result.Range.Start == start
+    ensures @span-end lasterr == nil ==> result.Range.End == self.PreviousToken.Span.End && result.Range.Filename == self.Filename
+    ensures @span-ordered lasterr == nil && old(self.CurrentToken.Kind) != lexer.EOF ==> result.Range.Start.Index <= result.Range.End.Index
 @*/
 
 /*@ func (self *Parser) assignExpression
-    serves C07
+    serves C07, C08
     requires ast.VIsAssignTok(self.CurrentToken.Kind) && lhs != nil
     ensures @lhs lasterr == nil ==> result.Lhs == lhs
     ensures @operator lasterr == nil ==> result.AssignOperator == ast.VAssignOf(old(self.CurrentToken.Kind))
     ensures @rhs-tighter lasterr == nil ==> ast.VRootLeft(result.Rhs) > lexer.VRight(old(self.CurrentToken.Kind))
+    requires start.Index <= self.CurrentToken.Span.Start.Index
+    ensures @span-start lasterr == nil ==> result.Range.Start == start
+    ensures @span-end lasterr == nil ==> result.Range.End == self.PreviousToken.Span.End && result.Range.Filename == self.Filename
+    ensures @span-ordered lasterr == nil && old(self.CurrentToken.Kind) != lexer.EOF ==> result.Range.Start.Index <= result.Range.End.Index
 @*/
 
 /*@ func (self *Parser) castExpression
-    serves C07
+    serves C07, C08
     ensures @base lasterr == nil ==> result.Base == base
+    requires start.Index <= self.CurrentToken.Span.Start.Index
+    ensures @span-start lasterr == nil ==> result.Range.Start == start
+    ensures @span-end lasterr == nil ==> result.Range.End == self.PreviousToken.Span.End && result.Range.Filename == self.Filename
+    ensures @span-ordered lasterr == nil && old(self.CurrentToken.Kind) != lexer.EOF ==> result.Range.Start.Index <= result.Range.End.Index
 @*/
 
 /*@ func (self *Parser) callExpression
-    serves C07
+    serves C07, C08
     ensures @base lasterr == nil ==> result.Base == base
+    requires start.Index <= self.CurrentToken.Span.Start.Index
+    ensures @span-start lasterr == nil ==> result.Range.Start == start
+    ensures @span-end lasterr == nil ==> result.Range.End == self.PreviousToken.Span.End && result.Range.Filename == self.Filename
+    ensures @span-ordered lasterr == nil && old(self.CurrentToken.Kind) != lexer.EOF ==> result.Range.Start.Index <= result.Range.End.Index
 @*/
 
 /*@ func (self *Parser) indexExpression
-    serves C07
+    serves C07, C08
     ensures @base lasterr == nil ==> result.Base == base
+    requires start.Index <= self.CurrentToken.Span.Start.Index
+    ensures @span-start lasterr == nil ==> result.Range.Start == start
+    ensures @span-end lasterr == nil ==> result.Range.End == self.PreviousToken.Span.End && result.Range.Filename == self.Filename
+    ensures @span-ordered lasterr == nil && old(self.CurrentToken.Kind) != lexer.EOF ==> result.Range.Start.Index <= result.Range.End.Index
 @*/
 
 /*@ func (self *Parser) memberExpression
-    serves C07
+    serves C07, C08
     ensures @base lasterr == nil ==> result.Base == base && result.Operator == operator
+    requires start.Index <= self.CurrentToken.Span.Start.Index
+    ensures @span-start lasterr == nil ==> result.Range.Start == start
+    ensures @span-end lasterr == nil ==> result.Range.End == self.PreviousToken.Span.End && result.Range.Filename == self.Filename
+    ensures @span-ordered lasterr == nil && old(self.CurrentToken.Kind) != lexer.EOF ==> result.Range.Start.Index <= result.Range.End.Index
 @*/
 
 /*@ func (self *Parser) groupedExpression
-    serves C07
+    serves C07, C08
     ensures @inner lasterr == nil ==> result.Inner != nil
+    ensures @span-start lasterr == nil ==> result.Range.Start == old(self.CurrentToken.Span.Start)
+    ensures @span-end lasterr == nil ==> result.Range.End == self.PreviousToken.Span.End && result.Range.Filename == self.Filename
+    ensures @span-ordered lasterr == nil && old(self.CurrentToken.Kind) != lexer.EOF ==> result.Range.Start.Index <= result.Range.End.Index
 @*/
 
 /*@ func (self *Parser) statemtent
@@ -181,4 +235,201 @@ func (p Parser) M() int {
 
 /*@ func (self *Parser) expressionStatement
     ensures @either lasterr == nil ==> result.Statement != nil || result.Expression != nil
+@*/
+
+/*@ func (self *Parser) functionAnnotation
+    serves C08
+    ensures @span-start lasterr == nil ==> result.Span.Start == old(self.CurrentToken.Span.Start)
+    ensures @span-end lasterr == nil ==> result.Span.End == self.PreviousToken.Span.End && result.Span.Filename == self.Filename
+    ensures @span-ordered lasterr == nil && old(self.CurrentToken.Kind) != lexer.EOF ==> result.Span.Start.Index <= result.Span.End.Index
+@*/
+
+/*@ func (self *Parser) annotationItemTrigger
+    serves C08
+    ensures @span-start lasterr == nil ==> result.Range.Start == old(self.CurrentToken.Span.Start)
+    ensures @span-end lasterr == nil ==> result.Range.End == self.PreviousToken.Span.End && result.Range.Filename == self.Filename
+    ensures @span-ordered lasterr == nil && old(self.CurrentToken.Kind) != lexer.EOF ==> result.Range.Start.Index <= result.Range.End.Index
+@*/
+
+/*@ func (self *Parser) rangeLiteral
+    serves C08
+    requires start.Index <= self.CurrentToken.Span.Start.Index
+    ensures @span-start lasterr == nil ==> result.Range.Start == start
+    ensures @span-end lasterr == nil ==> result.Range.End == self.PreviousToken.Span.End && result.Range.Filename == self.Filename
+    ensures @span-ordered lasterr == nil && old(self.CurrentToken.Kind) != lexer.EOF ==> result.Range.Start.Index <= result.Range.End.Index
+@*/
+
+/*@ func (self *Parser) listLiteral
+    serves C08
+    ensures @span-start lasterr == nil ==> result.Range.Start == old(self.CurrentToken.Span.Start)
+    ensures @span-end lasterr == nil ==> result.Range.End == self.PreviousToken.Span.End && result.Range.Filename == self.Filename
+    ensures @span-ordered lasterr == nil && old(self.CurrentToken.Kind) != lexer.EOF ==> result.Range.Start.Index <= result.Range.End.Index
+@*/
+
+/*@ func (self *Parser) functionLiteral
+    serves C08
+    ensures @span-start lasterr == nil ==> result.Range.Start == old(self.CurrentToken.Span.Start)
+    ensures @span-end lasterr == nil ==> result.Range.End == self.PreviousToken.Span.End && result.Range.Filename == self.Filename
+    ensures @span-ordered lasterr == nil && old(self.CurrentToken.Kind) != lexer.EOF ==> result.Range.Start.Index <= result.Range.End.Index
+@*/
+
+/*@ func (self *Parser) objectLiteralField
+    serves C08
+    ensures @span-start lasterr == nil ==> result.Range.Start == old(self.CurrentToken.Span.Start)
+    ensures @span-end lasterr == nil ==> result.Range.End == self.PreviousToken.Span.End && result.Range.Filename == self.Filename
+    ensures @span-ordered lasterr == nil && old(self.CurrentToken.Kind) != lexer.EOF ==> result.Range.Start.Index <= result.Range.End.Index
+@*/
+
+/*@ func (self *Parser) callArgs
+    serves C08
+    ensures @span-start lasterr == nil ==> argsRet.Span.Start == old(self.CurrentToken.Span.Start)
+    ensures @span-end lasterr == nil ==> argsRet.Span.End == self.PreviousToken.Span.End && argsRet.Span.Filename == self.Filename
+    ensures @span-ordered lasterr == nil && old(self.CurrentToken.Kind) != lexer.EOF ==> argsRet.Span.Start.Index <= argsRet.Span.End.Index
+@*/
+
+/*@ func (self *Parser) ifExpression
+    serves C08
+    ensures @span-start lasterr == nil ==> result.Range.Start == old(self.CurrentToken.Span.Start)
+    ensures @span-end lasterr == nil ==> result.Range.End == self.PreviousToken.Span.End && result.Range.Filename == self.Filename
+    ensures @span-ordered lasterr == nil && old(self.CurrentToken.Kind) != lexer.EOF ==> result.Range.Start.Index <= result.Range.End.Index
+@*/
+
+/*@ func (self *Parser) matchExpression
+    serves C08
+    ensures @span-start lasterr == nil ==> result.Range.Start == old(self.CurrentToken.Span.Start)
+    ensures @span-end lasterr == nil ==> result.Range.End == self.PreviousToken.Span.End && result.Range.Filename == self.Filename
+    ensures @span-ordered lasterr == nil && old(self.CurrentToken.Kind) != lexer.EOF ==> result.Range.Start.Index <= result.Range.End.Index
+@*/
+
+/*@ func (self *Parser) matchArm
+    serves C08
+    ensures @span-start lasterr == nil ==> arm.Range.Start == old(self.CurrentToken.Span.Start)
+    ensures @span-end lasterr == nil ==> arm.Range.End == self.PreviousToken.Span.End && arm.Range.Filename == self.Filename
+    ensures @span-ordered lasterr == nil && old(self.CurrentToken.Kind) != lexer.EOF ==> arm.Range.Start.Index <= arm.Range.End.Index
+@*/
+
+/*@ func (self *Parser) tryExpression
+    serves C08
+    ensures @span-start lasterr == nil ==> result.Range.Start == old(self.CurrentToken.Span.Start)
+    ensures @span-end lasterr == nil ==> result.Range.End == self.PreviousToken.Span.End && result.Range.Filename == self.Filename
+    ensures @span-ordered lasterr == nil && old(self.CurrentToken.Kind) != lexer.EOF ==> result.Range.Start.Index <= result.Range.End.Index
+@*/
+
+/*@ func (self *Parser) block
+    serves C08
+    ensures @span-start lasterr == nil ==> result.Range.Start == old(self.CurrentToken.Span.Start)
+    ensures @span-end lasterr == nil ==> result.Range.End == self.PreviousToken.Span.End && result.Range.Filename == self.Filename
+    ensures @span-ordered lasterr == nil && old(self.CurrentToken.Kind) != lexer.EOF ==> result.Range.Start.Index <= result.Range.End.Index
+@*/
+
+/*@ func (self *Parser) functionDefinition
+    serves C08
+    ensures @span-start lasterr == nil ==> result.Range.Start == old(self.CurrentToken.Span.Start)
+    ensures @span-end lasterr == nil ==> result.Range.End == self.PreviousToken.Span.End && result.Range.Filename == self.Filename
+    ensures @span-ordered lasterr == nil && old(self.CurrentToken.Kind) != lexer.EOF ==> result.Range.Start.Index <= result.Range.End.Index
+@*/
+
+/*@ func (self *Parser) importItem
+    serves C08
+    ensures @span-start lasterr == nil ==> result.Range.Start == old(self.CurrentToken.Span.Start)
+    ensures @span-end lasterr == nil ==> result.Range.End == self.PreviousToken.Span.End && result.Range.Filename == self.Filename
+    ensures @span-ordered lasterr == nil && old(self.CurrentToken.Kind) != lexer.EOF ==> result.Range.Start.Index <= result.Range.End.Index
+@*/
+
+/*@ func (self *Parser) singleton
+    serves C08
+    ensures @span-start lasterr == nil ==> result.Range.Start == old(self.CurrentToken.Span.Start)
+    ensures @span-end lasterr == nil ==> result.Range.End == self.PreviousToken.Span.End && result.Range.Filename == self.Filename
+    ensures @span-ordered lasterr == nil && old(self.CurrentToken.Kind) != lexer.EOF ==> result.Range.Start.Index <= result.Range.End.Index
+@*/
+
+/*@ func (self *Parser) typeDefinition
+    serves C08
+    ensures @span-start lasterr == nil ==> result.Range.Start == old(self.CurrentToken.Span.Start)
+    ensures @span-end lasterr == nil ==> result.Range.End == self.PreviousToken.Span.End && result.Range.Filename == self.Filename
+    ensures @span-ordered lasterr == nil && old(self.CurrentToken.Kind) != lexer.EOF ==> result.Range.Start.Index <= result.Range.End.Index
+@*/
+
+/*@ func (self *Parser) letStatement
+    serves C08
+    ensures @span-start lasterr == nil ==> result.Range.Start == old(self.CurrentToken.Span.Start)
+    ensures @span-end lasterr == nil ==> result.Range.End == self.PreviousToken.Span.End && result.Range.Filename == self.Filename
+    ensures @span-ordered lasterr == nil && old(self.CurrentToken.Kind) != lexer.EOF ==> result.Range.Start.Index <= result.Range.End.Index
+@*/
+
+/*@ func (self *Parser) returnStatement
+    serves C08
+    ensures @span-start lasterr == nil ==> result.Range.Start == old(self.CurrentToken.Span.Start)
+    ensures @span-end lasterr == nil ==> result.Range.End == self.PreviousToken.Span.End && result.Range.Filename == self.Filename
+    ensures @span-ordered lasterr == nil && old(self.CurrentToken.Kind) != lexer.EOF ==> result.Range.Start.Index <= result.Range.End.Index
+@*/
+
+/*@ func (self *Parser) breakStatement
+    serves C08
+    ensures @span-start lasterr == nil ==> result.Range.Start == old(self.CurrentToken.Span.Start)
+    ensures @span-end lasterr == nil ==> result.Range.End == self.PreviousToken.Span.End && result.Range.Filename == self.Filename
+    ensures @span-ordered lasterr == nil && old(self.CurrentToken.Kind) != lexer.EOF ==> result.Range.Start.Index <= result.Range.End.Index
+@*/
+
+/*@ func (self *Parser) continueStatement
+    serves C08
+    ensures @span-start lasterr == nil ==> result.Range.Start == old(self.CurrentToken.Span.Start)
+    ensures @span-end lasterr == nil ==> result.Range.End == self.PreviousToken.Span.End && result.Range.Filename == self.Filename
+    ensures @span-ordered lasterr == nil && old(self.CurrentToken.Kind) != lexer.EOF ==> result.Range.Start.Index <= result.Range.End.Index
+@*/
+
+/*@ func (self *Parser) loopStatement
+    serves C08
+    ensures @span-start lasterr == nil ==> result.Range.Start == old(self.CurrentToken.Span.Start)
+    ensures @span-end lasterr == nil ==> result.Range.End == self.PreviousToken.Span.End && result.Range.Filename == self.Filename
+    ensures @span-ordered lasterr == nil && old(self.CurrentToken.Kind) != lexer.EOF ==> result.Range.Start.Index <= result.Range.End.Index
+@*/
+
+/*@ func (self *Parser) whileStatement
+    serves C08
+    ensures @span-start lasterr == nil ==> result.Range.Start == old(self.CurrentToken.Span.Start)
+    ensures @span-end lasterr == nil ==> result.Range.End == self.PreviousToken.Span.End && result.Range.Filename == self.Filename
+    ensures @span-ordered lasterr == nil && old(self.CurrentToken.Kind) != lexer.EOF ==> result.Range.Start.Index <= result.Range.End.Index
+@*/
+
+/*@ func (self *Parser) forStatement
+    serves C08
+    ensures @span-start lasterr == nil ==> result.Range.Start == old(self.CurrentToken.Span.Start)
+    ensures @span-end lasterr == nil ==> result.Range.End == self.PreviousToken.Span.End && result.Range.Filename == self.Filename
+    ensures @span-ordered lasterr == nil && old(self.CurrentToken.Kind) != lexer.EOF ==> result.Range.Start.Index <= result.Range.End.Index
+@*/
+
+/*@ func (self *Parser) listType
+    serves C08
+    ensures @span-start lasterr == nil ==> result.Range.Start == old(self.CurrentToken.Span.Start)
+    ensures @span-end lasterr == nil ==> result.Range.End == self.PreviousToken.Span.End && result.Range.Filename == self.Filename
+    ensures @span-ordered lasterr == nil && old(self.CurrentToken.Kind) != lexer.EOF ==> result.Range.Start.Index <= result.Range.End.Index
+@*/
+
+/*@ func (self *Parser) objectType
+    serves C08
+    ensures @span-start lasterr == nil ==> result.Range.Start == old(self.CurrentToken.Span.Start)
+    ensures @span-end lasterr == nil ==> result.Range.End == self.PreviousToken.Span.End && result.Range.Filename == self.Filename
+    ensures @span-ordered lasterr == nil && old(self.CurrentToken.Kind) != lexer.EOF ==> result.Range.Start.Index <= result.Range.End.Index
+@*/
+
+/*@ func (self *Parser) objectTypeFieldComponent
+    serves C08
+    ensures @span-start lasterr == nil ==> result.Range.Start == old(self.CurrentToken.Span.Start)
+    ensures @span-end lasterr == nil ==> result.Range.End == self.PreviousToken.Span.End && result.Range.Filename == self.Filename
+    ensures @span-ordered lasterr == nil && old(self.CurrentToken.Kind) != lexer.EOF ==> result.Range.Start.Index <= result.Range.End.Index
+@*/
+
+/*@ func (self *Parser) optionType
+    serves C08
+    ensures @span-start lasterr == nil ==> result.Range.Start == old(self.CurrentToken.Span.Start)
+    ensures @span-end lasterr == nil ==> result.Range.End == self.PreviousToken.Span.End && result.Range.Filename == self.Filename
+    ensures @span-ordered lasterr == nil && old(self.CurrentToken.Kind) != lexer.EOF ==> result.Range.Start.Index <= result.Range.End.Index
+@*/
+
+/*@ func (self *Parser) functionType
+    serves C08
+    ensures @span-start lasterr == nil ==> result.Range.Start == old(self.CurrentToken.Span.Start)
+    ensures @span-end lasterr == nil ==> result.Range.End == self.PreviousToken.Span.End && result.Range.Filename == self.Filename
+    ensures @span-ordered lasterr == nil && old(self.CurrentToken.Kind) != lexer.EOF ==> result.Range.Start.Index <= result.Range.End.Index
 @*/
